@@ -303,7 +303,12 @@ ADDENDA5 = {
         'seat-thread capstone discharged (translated_seat_thread_is_session_program_protocol).',
  'C11': REGEX5 + 'Translated/ClientParsers*.lean, HandParsers*.lean, ThreadsClientE/F/Hands.lean: parse_team_names, parse_leader_message (every text), parse_board '
         '(no non-ASCII digit), parse_cards / parse_hand (ASCII; every hand) as translated = the model; connectParses discharged for every input '
-        '(connectParses_all), dealParses for every hand (dealParses_of_hand), board headers for every board number.',
+        '(connectParses_all), dealParses for every hand (dealParses_of_hand), board headers for every board number; ThreadsClientG.lean assembles them: '
+        'session_boards_parses and translated_client_is_session_program_closed — the bundled-client capstone with NO parse hypothesis for every scenario with '
+        'conforming ASCII texts and proper hands.',
+ 'C12': ' Translated/JsonRoundTrip.lean composes writer and reader INSIDE the translated code: jr_log_round_trip_translated — for every list of well-formed '
+        'entries the document the translated JsonLogWriter writes is read by the translated parse_board_logs as exactly the entries written (up to the '
+        'normalisation the property names); jr_log_as_settings_translated likewise through parse_board_settings.',
  'C19': REGEX5 + 'Audited here as well: Lemmas/RegexMsgBid*, RegexMsgClient*, RegexMsgHand* (the engine on every message pattern of both ends = the scanners of '
         'Model/Msg.lean, on the stated classes of subjects, with kernel-checked counterexamples where a class restriction is needed: U+001C-U+001F for \\s, '
         'non-ASCII decimal digits for \\d) and the translated parsers of both ends = the model parsers (MsgParsers*, ClientParsers*, HandParsers*), so the '
